@@ -36,6 +36,24 @@ def check_case(ctx, cs):
             ok, r = _try(ctx, site, tg, small, fn)
             if ok and not close_seq(r, exp):
                 ctx.violate(site, tg, small, {"got": r[:3], "expected": exp[:3]})
+        # the file wrapper of the 2-D flip: rows and columns change places in the file as well
+        import os, tempfile, shutil
+        d = tempfile.mkdtemp(prefix="verif_c13_")
+        try:
+            fi, fo = os.path.join(d, "in.txt"), os.path.join(d, "out.txt")
+            with open(fi, "w") as f:
+                for row in grid:
+                    f.write(";".join(",".join(repr(float(x)) for x in q) for q in row) + "\n")
+
+            def flipfile():
+                compatibility.flip_ctrlpts2d_file(fi, fo)
+                with open(fo) as f:
+                    return [[[float(x) for x in q.split(",")] for q in line.strip().split(";")] for line in f if line.strip()]
+            ok, r = _try(ctx, "compatibility.flip_ctrlpts2d_file", tg, small, flipfile)
+            if ok and not close_seq(r, [[grid[i][j] for i in range(su)] for j in range(sv)]):
+                ctx.violate("compatibility.flip_ctrlpts2d_file", tg, small, {"rows": len(r), "expected_rows": sv, "row0": r[0] if r else r})
+        finally:
+            shutil.rmtree(d, ignore_errors=True)
         # setter round trip
         ok, o2 = _try(ctx, "Surface.ctrlpts2d.setter", tg, small, lambda: build(sh))
         if ok:
@@ -63,6 +81,12 @@ def check_case(ctx, cs):
         ex = extract_and_compare(o["ex"], [])
         if ex is None:
             return
+        # the keyword options select one family of curves; the selected family is unchanged, the other one is empty
+        for opt, keep, drop in (({"extract_u": False}, "v", "u"), ({"extract_v": False}, "u", "v")):
+            ok, e1 = _try(ctx, "construct.extract_curves", tg + sorted(opt), small, lambda: construct.extract_curves(obj, **opt))
+            if ok:
+                if len(e1[drop]) != 0 or len(e1[keep]) != len(o["ex"][keep]) or any(same_def(project(a), e) for a, e in zip(e1[keep], o["ex"][keep])):
+                    ctx.violate("construct.extract_curves", tg + sorted(opt), small, {"kept": len(e1[keep]), "dropped_family_len": len(e1[drop])})
         for cdir, key, k in (("u", "v", 0), ("v", "u", 1)):
             for rep in (1, 2):          # the same sections are used twice: construction must not consume or alter them
                 t2 = tg + ["dir=" + cdir] + (["repeated"] if rep == 2 else [])
